@@ -296,6 +296,7 @@ def model_trace_line(world, group, colls: dict) -> str | None:
 def classify_transport(status: str, colls: dict, group, sub: bool, traces) -> tuple[str, str] | None:
     """known shapes of a transport failure -> (signature, explanation); None when it is something else."""
     if status in ("root-not-in-group", "root-is-not-the-member-meant") and sub:
+        # (repaired in synclib by _to_global_rank: an ordinary violation if it ever shows again)
         last = (traces[0] or "-").split(",")[-1]
         if last.startswith("bo/"):
             return ("C02|_sync_dtype_and_shape|subgroup|src-is-group-relative",
@@ -365,6 +366,7 @@ def check_case(rep: Report, *, label: str, cls: str, cfg_pub, entry: str, world:
         if local_err is not None and status.startswith("crashed-") and type(local_err).__name__ == status[len("crashed-"):]:
             rep.count("merge-or-compute-raises-locally-too")
         elif status.startswith("crashed-") and all_empty and known is None:
+            # (repaired in synclib: receiving ranks get []; an ordinary violation if it ever shows again)
             sig = "C02|_sync_list_tensor_states|all-ranks-empty|comes-back-as-dict"
             rep.count("violation:" + sig)
             rep.violation(sig, f"{cls}{cfg_pub} {entry} on group {list(group)} of {world}: list state(s) {all_empty} are [] on every rank, "
@@ -411,9 +413,17 @@ def check_case(rep: Report, *, label: str, cls: str, cfg_pub, entry: str, world:
 def flush_model(rep: Report, model_lines: list, pending: list, stream: str):
     if not model_lines:
         return
-    answers = [parse_answer(a) for a in model_run(model_lines)]
+    raw = model_run(model_lines + [l.replace("fn sync.sync_states ", "fn sync.syncable ", 1).replace(" dst=none ", " ", 1) for l in model_lines])
+    answers = [parse_answer(a) for a in raw[:len(model_lines)]]
     nd = rep.streams.setdefault(stream, {"cases": 0, "disagreements": 0})
-    for p, a in zip(pending, answers):
+    for p, a, sy in zip(pending, answers, raw[len(model_lines):]):
+        # where the theorems' hypothesis `Syncable` holds (decided by the model's checker) the collectives must complete:
+        # the only failure left is an exception inside merge_state / compute
+        sy = sy.strip()
+        rep.count("syncable:" + sy.replace("ok ", ""))
+        if sy == "ok true" and not (p["status"] == "ok" or p["status"].startswith("crashed-")):
+            rep.broke("theorem-hypothesis:Syncable", f"{p['label']}: the states satisfy Syncable but the transport reports {p['status']}",
+                      {**p["replay"], "request": p["line"][:2000]})
         rep.traces += 1
         nd["cases"] += 1
         p["model"] = a
@@ -630,12 +640,52 @@ def short_circuit_cases(rep: Report, rng: Rng):
                               f"{spec.name}: {o} trace={w.trace[0]}", {"kind": "short-circuit", "class": spec.name, "init": init})
     rep.streams["short-circuit"] = {"cases": n}
 
+# ------------------------------------------------------------------ a metric without registered states
+
+
+def stateless_cases(rep: Report):
+    """a metric that registers no state: `sync_states` gives it an (empty) entry in every rank's collection, no collective is
+    issued for it, and the toolkit returns the local merge — single metric and inside a collection, world and sub-group.
+    (Repaired defect: it used to raise KeyError('tmp') / KeyError(<name>); an ordinary violation if it ever shows again.)"""
+    lines, pend = [], []
+    bag_lines, expect = [], []
+    n = 0
+    for world, group in ((2, [0, 1]), (3, [0, 1, 2]), (3, [1, 2])):
+        for entry, mk in (("get_synced_metric", lambda g: Bag("")),
+                          ("sync_and_compute", lambda g: Bag("")),
+                          ("get_synced_metric_collection", lambda g: {"a": _bag_n(g), "b": Bag("")}),
+                          ("get_synced_state_dict_collection", lambda g: {"b": Bag(""), "a": _bag_n(g)})):
+            ms = {g: mk(g) for g in group}
+            n += 1
+            desc = {"class": "Bag", "kinds": "", "variant": "stateless", "entry": entry, "world": world, "group": group}
+            rep.case(nontrivial_key=("stateless", world, tuple(group), entry))
+            rep.count("stateless-metric")
+            check_case(rep, label=f"Bag(stateless,{entry})", cls="Bag", cfg_pub={"kinds": "", "variant": "stateless"}, entry=entry,
+                       world=world, group=group, ms=ms, tol=1e-6, replay={"kind": "stateless", **desc}, model_lines=lines, pending=pend)
+            if entry == "get_synced_metric":
+                outs, traces, status = run_toolkit(entry, world, group, {g: Bag("") for g in group})
+                bag_lines.append(f"fn sync.synced_bag world={world} group={','.join(map(str, group))} " + " ".join(f"r{g}=-" for g in group))
+                expect.append((status, traces, [enc_collection({"tmp": outs[g].value.state_dict()}) if outs[g].ok else None for g in group]))
+    flush_model(rep, lines, pend, "stateless")
+    st = rep.streams.setdefault("stateless", {"cases": n, "disagreements": 0})
+    for (status, traces, vals), a in zip(expect, [parse_answer(x) for x in model_run(bag_lines)]):
+        rep.traces += 1
+        if a["status"] != status or a["t"] != traces or (status == "ok" and [canon(x) for x in a["v"]] != [canon(x) for x in vals]):
+            st["disagreements"] += 1
+            rep.broke("correspondence:sync-model:stateless", f"real {status} {traces} {vals}, model {a['status']} {a['t']} {a['v']}"[:600],
+                      {"kind": "stateless"})
+
+
+def _bag_n(g):
+    m = Bag("n")
+    m.cnt = g + 1
+    return m
+
 # ------------------------------------------------------------------ thorough: real gloo
 
 
 def gloo_validation(rep: Report, pend: list, cap_ok=30, cap_fail=8):
     from .. import gloo_run
-    from concurrent.futures import ThreadPoolExecutor
     strata = {}
     for p in pend:
         if p.get("ms_before") is None or not (2 <= p["world"] <= 4) or "model" not in p:
@@ -648,8 +698,15 @@ def gloo_validation(rep: Report, pend: list, cap_ok=30, cap_fail=8):
     items = list(strata.values())
     oks = [p for p in items if p["status"] == "ok"]
     bads = [p for p in items if p["status"] != "ok"]
+    all_oks = oks
     oks = oks[:: max(1, len(oks) // cap_ok)][:cap_ok]
     bads = bads[:: max(1, len(bads) // cap_fail)][:cap_fail]
+    # proper sub-groups (incl. those whose traces contain a dtype/shape broadcast `bo/<global src>`): always sampled
+    must = [p for p in all_oks if p["group"] != list(range(p["world"])) and not any(p is q for q in oks)]
+    must.sort(key=lambda p: 0 if any("bo/" in t for t in p["traces"]) else 1)
+    oks = oks + must[:12]
+    rep.count("gloo:subgroup-cases", len([p for p in oks if p["group"] != list(range(p["world"]))]))
+    rep.count("gloo:subgroup-broadcast-cases", len([p for p in oks if p["group"] != list(range(p["world"])) and any("bo/" in t for t in p["traces"])]))
 
     def job_of(p):
         single = p["single"]
@@ -667,11 +724,11 @@ def gloo_validation(rep: Report, pend: list, cap_ok=30, cap_fail=8):
     for p in bads:
         launches.append((p["world"], [p]))
     t0 = time.time()
-    with ThreadPoolExecutor(max_workers=4) as ex:
-        results = list(ex.map(lambda wb: gloo_run.run_jobs(wb[0], [job_of(p) for p in wb[1]], timeout_s=15.0), launches))
+    results = gloo_run.run_launches([(w, [job_of(p) for p in b]) for w, b in launches],
+                                    lambda job, world: job["group"] if job["group"] is not None else list(range(world)))
     nval = ndis = 0
-    for (world, batch), res in zip(launches, results):
-        for j, p in enumerate(batch):
+    for (world, batch), row in zip(launches, results):
+        for p, (res, j) in zip(batch, row):
             single = p["single"]
             ms = {g: (clone_metric(p["ms_before"][g]["tmp"]) if single else {k: clone_metric(m) for k, m in p["ms_before"][g].items()})
                   for g in p["group"]}
@@ -703,6 +760,7 @@ def gloo_validation(rep: Report, pend: list, cap_ok=30, cap_fail=8):
 def run(rep: Report):
     t_end = time.time() + budget(rep.tier, 75, 700)
     short_circuit_cases(rep, Rng(rep.seed * 1000003 + 2))
+    stateless_cases(rep)
     collected: list = []
     registry_cases(rep, rep.seed, rep.tier, t_end - budget(rep.tier, 15, 150), collect=collected)
     bag_cases(rep, rep.seed, 260 if rep.tier == "quick" else 2500, t_end)
@@ -730,6 +788,8 @@ def replay(payload) -> bool:
     elif rp.get("kind") == "bag":
         world, group, kinds, variant, entry, ms, extra = make_bag_case(rp["case_seed"])
         check_case(rep, label="Bag", cls="Bag", cfg_pub={}, entry=entry, world=world, group=group, ms=ms, tol=1e-6, replay=rp, extra=extra)
+    elif rp.get("kind") == "stateless":
+        stateless_cases(rep)
     else:
         short_circuit_cases(rep, Rng(2))
     return not rep.violations
